@@ -7,7 +7,17 @@ Correspondence (exact, inside Coq) of Model/CsvHeader.v with csv.py:
   write_csv/read_csv observed on real directories (listing + zip members +
   outcome of read_csv), with stale files.
 Oracle (independent of the model): full write_csv -> read_csv round trips on
-generated frames; exact rational comparison of the numeric values."""
+generated frames; exact rational comparison of the numeric values.  The frames
+are built through every everyday route to a DataFrame (default RangeIndex;
+explicit integer / text / float / date / time-zone aware / two-level row labels;
+sorted, filtered, strided, reversed, concatenated frames, i.e. permuted, gapped
+and duplicated integer labels, views of larger frames; single 2-D blocks in C
+and Fortran order; narrower integer dtypes): with write_index=False the cells by
+POSITION are what the property speaks of, whatever the labels.
+Sessions: ONE directory (and ONE archive) taken through a sequence of
+write_csv / read_csv / file removals in one process, the same path strings
+re-used under changing storage modes; after each write the frame just written
+must be read back under its name (every step also goes through the model)."""
 import gzip
 import io
 import json
@@ -236,22 +246,107 @@ def gen_float(rng):
     return rng.gauss(0.0, 1.0) * scale
 
 
-def gen_roundtrip(rng, maxrows):
+def gen_float_zeroish(rng):
+    """columns of dry days / zero flow: exact zeros of both signs, values below the resolution of the format"""
+    r = rng.random()
+    if r < 0.3:
+        return 0.0
+    if r < 0.36:
+        return -0.0
+    if r < 0.46:
+        return rng.choice([1.0, -1.0]) * rng.choice([1e-9, 3e-7, 4e-6, 2e-12, 4.9e-324])
+    return gen_float(rng)
+
+
+INT_DTYPES = [("int8", 2 ** 7), ("int16", 2 ** 15), ("int32", 2 ** 31), ("uint8", None), ("uint32", None),
+              ("uint64", None)]
+TZS = [None, None, "UTC", "Europe/Paris", "Australia/Sydney", "America/New_York"]
+DATE_STARTS = ["2001-01-01", "2021-03-27 22:00", "2021-10-30 23:00", "2022-04-02 12:00", "1999-12-31 23:00",
+               "2020-02-28"]
+
+
+def gen_frame_route(rng, nrows, coltypes):
+    """how the DataFrame object is obtained from the cells (write_index=False: labels must not matter)"""
+    n = nrows
+    r = rng.random()
+    if r < 0.16 or (n == 1 and r < 0.3):      # explicit integer labels
+        k = rng.random()
+        if k < 0.3:
+            labels = rng.sample(range(n), n)                                     # a permutation of 0..n-1
+        elif k < 0.55:
+            labels = sorted(rng.sample(range(2 * n + 2), n))                    # gaps
+        elif k < 0.7:
+            o = rng.choice([1, 2, n, -1, -n, 10 ** 6])
+            labels = [o + i for i in range(n)]                                   # shifted
+        elif k < 0.85:
+            labels = [rng.randrange(max(1, n // 2 + 1)) for _ in range(n)]       # duplicated labels
+        else:
+            labels = rng.sample(range(-n, 3 * n + 1), n)                         # anything
+        fr = {"route": "labels", "labels": labels}
+    elif r < 0.24:
+        k = rng.random()
+        if k < 0.5:
+            labels = [f"row{i}" for i in rng.sample(range(n + 3), n)]
+        elif k < 0.75:
+            labels = [str(i) for i in rng.sample(range(n), n)]                   # digits as text
+        else:
+            labels = [rng.choice([0.0, 0.5, -1.0, float(i), i + 0.25]) for i in range(n)]
+        fr = {"route": "labels", "labels": labels}
+    elif r < 0.32:
+        fr = {"route": "dates", "start": rng.choice(DATE_STARTS), "freq": rng.choice(["D", "h", "30min", "7D"]),
+              "tz": rng.choice(TZS)}
+    elif r < 0.36:
+        fr = {"route": "multi", "labels": [[rng.randrange(3) for _ in range(n)], rng.sample(range(n), n)]}
+    elif r < 0.46:
+        fr = {"route": "reverse"}
+    elif r < 0.54:
+        fr = {"route": "stride", "step": rng.choice([2, 2, 3]), "offset": rng.choice([0, 0, 1, 2])}
+    elif r < 0.64:
+        fr = {"route": "mask", "keep": sorted(rng.sample(range(2 * n + rng.choice([0, 1, 3])), n)),
+              "how": rng.choice(["getitem", "loc"])}
+    elif r < 0.78:
+        fr = {"route": "sort", "perm": rng.sample(range(n), n)}
+    elif r < 0.86 and n >= 2:
+        fr = {"route": "concat", "split": rng.randint(1, n - 1)}
+    elif r < 0.94 and all(t == "float" for t in coltypes):
+        fr = {"route": "block", "order": rng.choice(["C", "F", "T"])}
+    else:
+        fr = {"route": "range"}
+    if rng.random() < 0.1 and fr["route"] in ("labels", "dates", "sort", "mask"):
+        fr["index_name"] = rng.choice(["index", "idx", "time", "0"])
+    return fr
+
+
+def gen_roundtrip(rng, maxrows, frames=False):
     nrows = rng.choice([1, 1, 2, 3, rng.randint(1, maxrows)])
+    if frames:
+        nrows = rng.choice([2, 3, 4, rng.randint(1, maxrows), rng.randint(2, maxrows)])
     ncols = rng.randint(1, 6)
     names = gen_colnames(rng, ncols)
     cols = []
+    allfloat = frames and rng.random() < 0.15
     for nm in names:
-        t = rng.choice(["float", "float", "int", "text"])
+        t = "float" if allfloat else rng.choice(["float", "float", "int", "text"])
+        col = {"name": nm, "type": t}
         if t == "float":
-            vals = [gen_float(rng) for _ in range(nrows)]
+            g = gen_float_zeroish if rng.random() < (0.5 if frames else 0.15) else gen_float
+            vals = [g(rng) for _ in range(nrows)]
         elif t == "int":
             big = rng.random() < 0.1
             vals = [rng.randint(-9 * 10 ** 18, 9 * 10 ** 18) if big else rng.randint(-10 ** 6, 10 ** 6)
                     for _ in range(nrows)]
+            if rng.random() < 0.3:            # a narrower / unsigned integer dtype that holds the values
+                dt, lim = rng.choice(INT_DTYPES)
+                if lim is None:
+                    vals = [abs(v) % (2 ** 8 if dt == "uint8" else 2 ** 32) if dt != "uint64" else abs(v)
+                            for v in vals]
+                else:
+                    vals = [(v + lim) % (2 * lim) - lim for v in vals]
+                col["dtype"] = dt
         else:
             vals = [gen_text_cell(rng) for _ in range(nrows)]
-        cols.append({"name": nm, "type": t, "values": vals})
+        col["values"] = vals
+        cols.append(col)
     comment = []
     for _ in range(rng.choice([0, 1, 2, 3, 5])):
         k = okkey(rng)
@@ -267,8 +362,11 @@ def gen_roundtrip(rng, maxrows):
         fname = stemname + rng.choice([".csv", ".csv", ".zip", ".zip", "", "", ".txt", ".CSV", ".csv.zip"])
     else:
         fname = rng.choice(["folder_01/", "a/b/", "sub-dir/x_y/"]) + stemname + rng.choice([".csv", ".csv", ".txt", ""])
-    return {"call": "roundtrip", "columns": cols, "comment": comment, "mode": mode, "filename": fname,
+    case = {"call": "roundtrip", "columns": cols, "comment": comment, "mode": mode, "filename": fname,
             "float_format": rng.choice(FLOAT_FORMATS), "sys": rng.random() < 0.3}
+    if frames:
+        case["frame"] = gen_frame_route(rng, nrows, [c["type"] for c in cols])
+    return case
 
 
 def gen_files(rng):
@@ -307,6 +405,80 @@ def gen_archive(rng):
     path = rng.choice(paths)
     rpath = path if rng.random() < 0.6 else rng.choice(paths)
     return {"call": "archive", "pre": pre, "path": path, "tag": 7, "rpath": rpath}
+
+
+def gen_stale(rng, S, cands, tagc):
+    pre = []
+    for c in cands:
+        if rng.random() < 0.22:
+            tagc[0] += 1
+            if c.endswith(".gz"):
+                pre.append([c, ["gz", tagc[0]]])
+            elif c.endswith(".zip"):
+                ms = []
+                for m in [S + ".csv", S, S + ".zip", S + ".csv.csv", S + ".txt", "other.csv"]:
+                    if rng.random() < 0.35:
+                        tagc[0] += 1
+                        ms.append([m, tagc[0]])
+                pre.append([c, ["zip", ms]])
+            else:
+                pre.append([c, ["text", tagc[0]]])
+    return pre
+
+
+def gen_session(rng):
+    """one directory, one process: a few names written again and again under changing storage modes, files
+    removed in between, each write followed by a read"""
+    S = rword(rng, LOWER, 1, 4)
+    cands = [S, S + ".csv", S + ".gz", S + ".zip", S + ".csv.gz", S + ".txt", S + ".csv.zip", S + ".csv.csv",
+             S + ".x.csv"]
+    tagc = [100]
+    pre = gen_stale(rng, S, cands, tagc) if rng.random() < 0.3 else []
+    shapes = [S, S + ".csv", S + ".csv", S + ".zip", S + ".txt", S + ".dat", S + ".CSV", S + ".x.csv",
+              S + ".csv.zip"]
+    pool = []
+    for nm in rng.sample(shapes, rng.choice([1, 1, 2, 2, 3])):
+        if nm not in pool:
+            pool.append(nm)
+    steps, tag = [], 300
+    for i in range(rng.choice([2, 3, 4, 5, 6, 8])):
+        name = rng.choice(pool)
+        if rng.random() < (0.45 if i else 0.15):
+            rm = [name] if rng.random() < 0.7 else []
+            for c in rng.sample(cands, rng.choice([0, 0, 1, 2])):
+                if c not in rm:
+                    rm.append(c)
+            if rng.random() < 0.3:
+                rm.append(Path(name).stem + ".zip")
+            if rm:
+                steps.append({"op": "remove", "names": rm})
+        tag += 1
+        plain_able = Path(name).suffix not in (".gz", ".zip")
+        mode = rng.choice(["plain", "compress"]) if plain_able or rng.random() < 0.2 else "compress"
+        r = rng.random()
+        rname = name if r < 0.75 else rng.choice(pool) if r < 0.9 else rng.choice(cands)
+        steps.append({"op": "write", "mode": mode, "name": name, "tag": tag, "rname": rname})
+    return {"call": "session", "pre": pre, "aspath": rng.random() < 0.6, "steps": steps}
+
+
+def gen_arcsession(rng):
+    """one caller-supplied archive taken through several write_csv calls (members in sub-folders, written twice,
+    normalised paths), each followed by a read"""
+    S = rword(rng, LOWER, 1, 4)
+    paths = [f"folder_01/{S}.csv", f"a/b/{S}.csv", f"./a//b/{S}.csv", f"a/./b/{S}.csv", f"{S}.csv", f"{S}",
+             f"a/b/{S}", f".//{S}.csv", f"a/b/{S}.txt", f"a/{S}.csv", f"b/{S}.csv", f"sub-dir/x_y/{S}.csv"]
+    pre = [[str(PurePosixPath(p)), 200 + i] for i, p in enumerate(paths) if rng.random() < 0.06]
+    pre = [list(x) for x in dict((a, b) for a, b in pre).items()]
+    steps, tag, used = [], 300, []
+    for _ in range(rng.choice([2, 3, 4, 6])):
+        tag += 1
+        path = rng.choice(paths)
+        used.append(path)
+        r = rng.random()
+        rpath = path if r < 0.6 else rng.choice(used) if r < 0.85 else rng.choice(paths)
+        steps.append({"path": path, "tag": tag, "rpath": rpath})
+    return {"call": "arcsession", "pre": pre, "handle": rng.choice(["reopen", "reopen", "append", "write"]),
+            "steps": steps}
 
 
 # ----------------------------------------------------------------------------
@@ -426,6 +598,160 @@ class Impl:
         except Exception as e:  # noqa
             return ["other", f"{type(e).__name__}: {e}"]
 
+    def outcome_run(self, fn):
+        """outcome + the caller's comment `run` that came back with it"""
+        got = {}
+
+        def fn2():
+            data, comment = fn()
+            got["run"] = comment.get("run")
+            return data, comment
+        out = self.outcome(fn2)
+        return out, got.get("run")
+
+    def session(self, case):
+        """[None | dict(pre, listing, outcome, run)] per step"""
+        d = self.fresh()
+        wrap = (lambda q: q) if case["aspath"] else str
+        res = []
+        try:
+            self.populate(d, case["pre"])
+            for st in case["steps"]:
+                if st["op"] == "remove":
+                    for nm in st["names"]:
+                        (d / nm).unlink(missing_ok=True)
+                    res.append(None)
+                    continue
+                pre = self.listing(d)
+                df = self.pd.DataFrame({"v": [st["tag"]]})
+                self.csv.write_csv(df, wrap(d / st["name"]), {"run": f"r{st['tag']}"}, self.src,
+                                   compress=st["mode"] == "compress", write_sys_info=False)
+                lst = self.listing(d)
+                out, run = self.outcome_run(lambda: self.csv.read_csv(wrap(d / st["rname"])))
+                res.append({"pre": pre, "listing": lst, "outcome": out, "run": run})
+            return res
+        finally:
+            self.done(d)
+
+    def arcsession(self, case):
+        """dict(pre, members | None when refused, outcome, run) per step"""
+        d = self.fresh()
+        farc = d / "arc.zip"
+        res = []
+
+        def members_of(arc):
+            return [[m, self.tag_of(arc.read(m).decode())] for m in arc.namelist()]
+
+        def write(arc, st):
+            df = self.pd.DataFrame({"v": [st["tag"]]})
+            try:
+                self.csv.write_csv(df, st["path"], {"run": f"r{st['tag']}"}, self.src, archive=arc,
+                                   write_sys_info=False)
+                return False
+            except ValueError as e:
+                if "already exists" not in str(e):
+                    raise
+                return True
+        try:
+            one = None
+            if case["handle"] == "write":         # one handle, opened for writing, kept for the whole session
+                one = zipfile.ZipFile(farc, "w")
+                for m, t in case["pre"]:
+                    one.writestr(m, self.small_text(t))
+            else:
+                with zipfile.ZipFile(farc, "w") as arc:
+                    for m, t in case["pre"]:
+                        arc.writestr(m, self.small_text(t))
+                if case["handle"] == "append":    # one handle, opened for appending
+                    one = zipfile.ZipFile(farc, "a")
+            try:
+                for st in case["steps"]:
+                    if one is not None:
+                        pre = members_of(one)
+                        refused = write(one, st)
+                        members = members_of(one)
+                        out, run = self.outcome_run(lambda: self.csv.read_csv(st["rpath"], archive=one))
+                    else:
+                        with zipfile.ZipFile(farc, "r") as arc:
+                            pre = members_of(arc)
+                        with zipfile.ZipFile(farc, "a") as arc:
+                            refused = write(arc, st)
+                        with zipfile.ZipFile(farc, "r") as arc:
+                            members = members_of(arc)
+                            out, run = self.outcome_run(lambda: self.csv.read_csv(st["rpath"], archive=arc))
+                    res.append({"pre": pre, "members": None if refused else members, "outcome": out, "run": run})
+            finally:
+                if one is not None:
+                    one.close()
+            return res
+        finally:
+            self.done(d)
+
+    # --- the DataFrame object of a round trip
+    def build_frame(self, case):
+        pd, np = self.pd, self.np
+        cols = case["columns"]
+        n = len(cols[0]["values"])
+        fr = case.get("frame") or {"route": "range"}
+        route = fr["route"]
+
+        def mk(rows, index=None, extra=None):
+            data = {c["name"]: [c["values"][i] for i in rows] for c in cols}
+            if extra:
+                data.update(extra)
+            return pd.DataFrame(data, index=index)
+
+        if route == "range":
+            df = mk(range(n))
+        elif route == "labels":
+            df = mk(range(n), index=list(fr["labels"]))
+        elif route == "dates":
+            df = mk(range(n), index=pd.date_range(fr["start"], periods=n, freq=fr["freq"], tz=fr["tz"]))
+        elif route == "multi":
+            df = mk(range(n), index=pd.MultiIndex.from_arrays([list(x) for x in fr["labels"]]))
+        elif route == "reverse":          # df.iloc[::-1] of the frame stored upside down
+            df = mk(range(n - 1, -1, -1)).iloc[::-1]
+        elif route == "stride":           # every step-th row of a longer frame
+            st, o = fr["step"], fr["offset"]
+            m = o + st * (n - 1) + 1
+            rows = [(j - o) // st if j >= o and (j - o) % st == 0 else j % n for j in range(m)]
+            df = mk(rows).iloc[o::st]
+        elif route == "mask":             # a filtered frame
+            keep = list(fr["keep"])
+            m = max(keep) + 1
+            pos = {j: i for i, j in enumerate(keep)}
+            rows = [pos.get(j, j % n) for j in range(m)]
+            mask = np.zeros(m, dtype=bool)
+            mask[keep] = True
+            big = mk(rows)
+            df = big.loc[mask] if fr.get("how") == "loc" else big[mask]
+        elif route == "sort":             # a frame sorted by a column
+            perm = list(fr["perm"])
+            df = mk(perm, extra={"sort#key": perm}).sort_values("sort#key").drop(columns="sort#key")
+        elif route == "concat":           # two frames put on top of each other, labels kept
+            k = fr["split"]
+            df = pd.concat([mk(range(k)), mk(range(k, n))])
+        elif route == "block":            # one 2-D block of floats
+            if fr["order"] == "T":
+                arr = np.array([c["values"] for c in cols], dtype=np.float64).T
+            else:
+                arr = np.array([[c["values"][i] for c in cols] for i in range(n)], dtype=np.float64,
+                               order=fr["order"])
+            df = pd.DataFrame(arr, columns=[c["name"] for c in cols])
+        else:
+            raise ValueError(f"unknown frame route {route!r}")
+        dts = {c["name"]: c["dtype"] for c in cols if c.get("dtype")}
+        if dts:
+            df = df.astype(dts)
+        if fr.get("index_name") is not None:
+            df.index.name = fr["index_name"]
+        if df.shape != (n, len(cols)) or [str(c) for c in df.columns] != [c["name"] for c in cols]:
+            raise AssertionError("harness: frame route did not produce the cells of the case")
+        for j, c in enumerate(cols):
+            if [x for x in df.iloc[:, j].tolist()] != list(c["values"]):
+                raise AssertionError(f"harness: frame route {route!r} did not produce the cells of the case")
+        return df
+
     def files(self, case):
         d = self.fresh()
         try:
@@ -467,10 +793,7 @@ class Impl:
         pd = self.pd
         d = self.fresh()
         try:
-            data = {}
-            for c in case["columns"]:
-                data[c["name"]] = c["values"]
-            df = pd.DataFrame(data)
+            df = self.build_frame(case)
             comment = {k: v for k, v in case["comment"]}
             kw = dict(float_format=case["float_format"], write_sys_info=case["sys"], author="tester")
             text = None
@@ -621,6 +944,19 @@ def judge_roundtrip(case, res):
     return out
 
 
+def must_read_back(mode, name, pre_names):
+    """hypotheses of the property on the directory (statement of C09_names_roundtrip_plain / _compress): a plain
+    file under a name that does not announce a compressed file is read back whatever else the directory holds; a
+    compressed file is read back unless an OLDER file shadows it - the name itself (when it is not the zip
+    container that gets overwritten) or <stem>.gz, which read_csv tries before <stem>.zip"""
+    p = Path(name)
+    if mode == "plain":
+        return p.suffix not in (".gz", ".zip")
+    if p.suffix == ".zip":
+        return True
+    return name not in pre_names and (p.stem + ".gz") not in pre_names
+
+
 SIMPLE_LINE = re.compile(r"([a-z0-9_]{1,25}) : (\S(?:.*\S)?)")
 
 
@@ -685,7 +1021,14 @@ def run(ctx):
                 "with blanks/tabs/upper case, duplicates, colon-less lines up to the three-digit counter); read_csv "
                 "header loop on written text files; pathlib stem/suffix and PurePosixPath normalisation; "
                 "write_csv/read_csv on directories with stale files (plain/compress x 15 name shapes) and archives; "
-                "full round trips (float/int/text columns, 11 float formats, plain/compress/archive); "
+                "full round trips (float/int/text columns, 11 float formats, plain/compress/archive); the same "
+                "with the frame reached by each route to a DataFrame (explicit integer labels permuted / with gaps / "
+                "shifted / duplicated, text, float, date, time-zone aware and two-level labels, reversed, strided, "
+                "filtered, sorted and concatenated frames, 2-D float blocks in C/F order, integer dtypes of 8..64 "
+                "bits, columns rich in zeros and values below the format's resolution); sessions in one directory "
+                "(2..8 writes over 1..3 names, storage mode changed, files removed in between, read after each "
+                "write, paths as str or Path) and on one archive (handle re-opened / kept open for appending / for "
+                "writing); "
                 "non-trivial = distinct (call, branch signature)")
     ctx.trusted = cm.STD_TRUST + [
         "pathlib/zipfile/gzip of CPython 3.12 are modelled (stem, suffix, PurePosixPath string, member lookup) and "
@@ -807,14 +1150,74 @@ def run(ctx):
             if members is not None and case["rpath"] == case["path"] and out != ["ok", case["tag"]]:
                 fail(idx, "C09/names/archive-member-not-read-back",
                      f"write_csv({case['path']!r}, archive=...) then read_csv -> {out}; members {members}")
+        elif c == "session":
+            res = im.session(case)
+            seen = {}
+            for k, (st, r) in enumerate(zip(case["steps"], res)):
+                if st["op"] != "write":
+                    continue
+                out = r["outcome"]
+                rep = dict(case, step=k, impl_steps=res[:k + 1])
+                earlier = seen.get(st["name"])
+                idx = add(f"HFiles {cfs(r['pre'])} {'Compress' if st['mode'] == 'compress' else 'Plain'} "
+                          f"{cs(st['name'])} {cm.coq_z(st['tag'])} {cfs(r['listing'])} {cs(st['rname'])} "
+                          f"{coutcome(out)}", rep,
+                          ("session", st["mode"], out[0], st["name"] == st["rname"], min(len(r["pre"]), 2),
+                           "first" if earlier is None else "same-mode" if earlier == st["mode"] else "mode-changed",
+                           k > 0 and case["steps"][k - 1]["op"] == "remove"))
+                seen[st["name"]] = st["mode"]
+                tally("session-outcome", st["mode"], out[0])
+                # property: what was written under a name is read back under that name (directory hypotheses of
+                # the theorems), whatever was written, read or removed before in this directory / process
+                if st["rname"] == st["name"] and must_read_back(st["mode"], st["name"], [n for n, _ in r["pre"]]):
+                    tally("session-judged", st["mode"])
+                    how = (f"step {k} of a session in one directory: write_csv({st['name']!r}, "
+                           f"compress={st['mode'] == 'compress'}) then read_csv({st['rname']!r}) -> {out}; "
+                           f"files before {r['pre']}, after {r['listing']}; earlier steps {case['steps'][:k]}")
+                    if out[0] == "ok" and out[1] != st["tag"]:
+                        fail(idx, "C09/session/older-frame-read-back", how)
+                    elif out[0] != "ok":
+                        key = "C09/names/compressed-member-not-found" \
+                            if out[0] == "nomember" and st["mode"] == "compress" and k == 0 and not case["pre"] \
+                            else f"C09/session/{st['mode']}-not-read-back/{out[0]}"
+                        fail(idx, key, how)
+                    elif r["run"] != f"r{st['tag']}":
+                        fail(idx, "C09/session/comment-changed",
+                             how + f"; comment run={r['run']!r} instead of {'r' + str(st['tag'])!r}")
+        elif c == "arcsession":
+            res = im.arcsession(case)
+            for k, (st, r) in enumerate(zip(case["steps"], res)):
+                members, out = r["members"], r["outcome"]
+                earc = "None" if members is None else f"(Some {cmembers(members)})"
+                rep = dict(case, step=k, impl_steps=res[:k + 1])
+                idx = add(f"HArch {cmembers(r['pre'])} {cs(st['path'])} {cm.coq_z(st['tag'])} {earc} "
+                          f"{cs(st['rpath'])} {coutcome(out)}", rep,
+                          ("arcsession", case["handle"], members is None, out[0], st["path"] == st["rpath"],
+                           min(len(r["pre"]), 3)))
+                tally("arcsession-outcome", case["handle"], "refused" if members is None else "added", out[0])
+                if members is not None and st["rpath"] == st["path"]:
+                    how = (f"step {k} of a session on one archive ({case['handle']}): write_csv({st['path']!r}, "
+                           f"archive=...) then read_csv -> {out}; members {members}; earlier steps "
+                           f"{case['steps'][:k]}")
+                    if out[0] == "ok" and out[1] != st["tag"]:
+                        fail(idx, "C09/session/archive-older-frame-read-back", how)
+                    elif out[0] != "ok":
+                        fail(idx, "C09/names/archive-member-not-read-back", how)
+                    elif r["run"] != f"r{st['tag']}":
+                        fail(idx, "C09/session/comment-changed",
+                             how + f"; comment run={r['run']!r} instead of {'r' + str(st['tag'])!r}")
         elif c == "roundtrip":
             res = im.roundtrip(case)
             fails = judge_roundtrip(case, res)
             tally("roundtrip", case["mode"], "error" if "error" in res else "ok")
             tally("roundtrip-format", case["float_format"])
+            route = (case.get("frame") or {}).get("route", "range")
+            tally("roundtrip-frame", route)
             sig = ("roundtrip", case["mode"], Path(case["filename"]).suffix, case["float_format"],
                    tuple(sorted({c2["type"] for c2 in case["columns"]})), min(len(case["comment"]), 2),
-                   "error" in res)
+                   "error" in res) if route == "range" else \
+                  ("roundtrip-frame", route, case["mode"], case["float_format"] is None,
+                   tuple(sorted({c2["type"] for c2 in case["columns"]})), "error" in res)
             rep = dict(case, impl={k: (v if k != "values" else str(v)[:400]) for k, v in res.items() if k != "text"})
             text = res.get("text")
             lines, nh = [], 0
@@ -898,10 +1301,18 @@ def run(ctx):
         do_case(gen_files(rng))
     for _ in range(ctx.scale(120, 1500)):
         do_case(gen_archive(rng))
+    # ---- sessions: one directory / one archive, names re-used, storage mode changed, files removed in between
+    for _ in range(ctx.scale(70, 1000)):
+        do_case(gen_session(rng))
+    for _ in range(ctx.scale(20, 300)):
+        do_case(gen_arcsession(rng))
     # ---- full round trips (oracle) + the reader model on the files produced
     maxrows = ctx.scale(12, 60)
     for _ in range(ctx.scale(400, 6000)):
         do_case(gen_roundtrip(rng, maxrows))
+    # ---- the same, the frame reached by every route to a DataFrame (row labels, views, blocks, dtypes)
+    for _ in range(ctx.scale(160, 2500)):
+        do_case(gen_roundtrip(rng, maxrows, frames=True))
 
     bad, nshards, failed = cm.run_case_files(PID, HEADER, "hcase", "h_ok", terms, shard=700, max_bytes=250000)
     ctx.notes["correspondence_cases"] = len(terms)
